@@ -210,6 +210,7 @@ def run(res):
   t0 = time.time()
   results = base.pool_map(work, [(i, c, part[i], res.seed) for i, c in enumerate(cases)])
   stats = {}
+  per_key = {}
   for out in results:
     res.traces += out['traces']
     for k in out['keys']:
@@ -217,9 +218,11 @@ def run(res):
     for k, v in out['stats'].items():
       stats[k] = stats.get(k, 0) + v
     for clause, case, detail, key in out['viol']:
-      if len(res.violations) < 600:
+      per_key[key] = per_key.get(key, 0) + 1
+      if per_key[key] <= (300 if key is None else 60):   # known classes never crowd out a plain violation
         res.violate(clause, case, detail, finding_key=key)
   res.extra['replay_wall_s'] = round(time.time() - t0, 1)
+  res.extra['failing_calls_by_class'] = {str(k): v for k, v in per_key.items()}
   res.extra['calls'] = dict(sorted(stats.items()))
   res.extra['dropped_nongeneric'] = stats.get('nongeneric:True', 0)
   for i in range(0, len(cases), max(1, len(cases) // 5)):
